@@ -133,8 +133,7 @@ func NewWorld(cfg Cfg, prop string) *World {
 	w.M.UniqueP = cfg.Index == 3
 	vfs.Cur = w.FS
 	w.FS.LogOn = true
-	sod.LowercaseNames = cfg.Lower
-	vrt.MapReverse = cfg.MapRev
+	setGlobals(cfg)
 	w.open()
 	return w
 }
@@ -781,4 +780,16 @@ func (w *World) Control() error { return w.DB.Control() }
 func sortedViol(vs []Violation) []Violation {
 	sort.SliceStable(vs, func(i, j int) bool { return vs[i].Sig < vs[j].Sig })
 	return vs
+}
+
+// setGlobals sets the package-level switches of sod and of the shim for cfg. They
+// are only written when they change: a leftover thread of the previous execution
+// may still read them while it is being unwound.
+func setGlobals(cfg Cfg) {
+	if sod.LowercaseNames != cfg.Lower {
+		sod.LowercaseNames = cfg.Lower
+	}
+	if vrt.MapReverse != cfg.MapRev {
+		vrt.MapReverse = cfg.MapRev
+	}
 }
